@@ -92,6 +92,30 @@ $(B)/t/rpc_world.fuzz: $(B)/gen/regress.gen.o
 $(B)/t/%.fuzz: $(B)/t/%.o $(SIMOBJ) $(SUPOBJ) $(B)/asan/libevent_all.a
 	@echo "[ld] $@"; $(CXX) $(COMMON) -fsanitize=fuzzer $< $(EXTRAOBJ) $(SIMOBJ) $(SUPOBJ) $(B)/asan/libevent_all.a $(WRAPFLAGS) $(LDLIBS) -o $@
 
+# ---- ThreadSanitizer variant (C09 leg B): library + targets under props_tsan/, no sim layer, real clock and threads.
+# No coverage instrumentation here: libFuzzer's inline 8-bit counters are themselves racy under TSan; libFuzzer only
+# serves as the (seeded) generator and artifact writer for this leg.
+TSANFLAGS := -g -O1 -fno-omit-frame-pointer -fsanitize=thread
+LIBOBJ_TSAN := $(LIBSRC:%=$(B)/tsan/%.o)
+$(B)/tsan/sha1.o: EXTRA := -DLITTLE_ENDIAN=1
+$(B)/tsan/%.o: $(REPO)/%.c $(CFG)/event2/event-config.h
+	@mkdir -p $(dir $@)
+	@echo "[cc-tsan] $<"; $(CC) $(TSANFLAGS) $(LIBDEFS) $(INCS) -fno-strict-aliasing -w $(EXTRA) -MMD -MP -c $< -o $@
+$(B)/tsan/libevent_all.a: $(LIBOBJ_TSAN)
+	@rm -f $@
+	@ar rcs $@ $(LIBOBJ_TSAN)
+$(B)/tsan/support.o: sim/support.cc lib/verif.h
+	@mkdir -p $(dir $@)
+	@echo "[cxx-tsan] $<"; $(CXX) -std=gnu++17 $(TSANFLAGS) $(LIBDEFS) $(INCS) -I$(V)/lib -I$(V)/sim -c $< -o $@
+$(B)/t/%.tsan.o: props_tsan/%.cc lib/verif.h $(CFG)/event2/event-config.h
+	@mkdir -p $(dir $@)
+	@echo "[cxx-tsan] $<"; $(CXX) -std=gnu++17 $(TSANFLAGS) $(LIBDEFS) $(INCS) -I$(V)/lib -I$(V)/sim -I$(V)/refs -Wall -Wno-unused-function -MMD -MP -c $< -o $@
+$(B)/tsan/covprobe.o: props_tsan/covprobe.inc
+	@mkdir -p $(dir $@)
+	$(CXX) -x c++ -g -O1 -fsanitize=fuzzer-no-link -c $< -o $@
+$(B)/t/%.tsan: $(B)/t/%.tsan.o $(B)/tsan/support.o $(B)/tsan/covprobe.o $(B)/tsan/libevent_all.a
+	@echo "[ld] $@"; $(CXX) $(TSANFLAGS) -fsanitize=fuzzer $< $(B)/tsan/support.o $(B)/tsan/covprobe.o $(B)/tsan/libevent_all.a $(LDLIBS) -o $@
+
 # targets that #include a library .c file to reach static functions must see edits to it
 $(B)/t/epoll_table.o: $(REPO)/epoll.c $(REPO)/epolltable-internal.h
 
@@ -99,4 +123,4 @@ $(B)/t/epoll_table.o: $(REPO)/epoll.c $(REPO)/epolltable-internal.h
 clean:
 	rm -rf build
 
--include $(wildcard $(B)/asan/*.d) $(wildcard $(B)/t/*.d) $(wildcard $(B)/sim/*.d)
+-include $(wildcard $(B)/tsan/*.d) $(wildcard $(B)/asan/*.d) $(wildcard $(B)/t/*.d) $(wildcard $(B)/sim/*.d)
